@@ -2,6 +2,7 @@
 import json, os, sys, time
 
 VERIF = os.path.dirname(os.path.dirname(os.path.abspath(__file__)))
+EVDIR = os.environ.get("VSA_EVIDENCE", os.path.join(VERIF, "evidence"))
 
 
 class Report:
@@ -75,7 +76,10 @@ class Report:
         viol = [o for o in self.obligations if o["status"] == "violation"]
         held = [o for o in self.obligations if o["status"] == "holds"]
         known = [o for o in self.obligations if o["status"] == "known"]
-        os.makedirs(os.path.join(VERIF, "evidence", "replay"), exist_ok=True)
+        os.makedirs(os.path.join(EVDIR, "replay"), exist_ok=True)
+        for old in os.listdir(os.path.join(EVDIR, "replay")):
+            if old.startswith(self.pid + "-"):
+                os.unlink(os.path.join(EVDIR, "replay", old))
         seen = set()
         k = 0
         for o in viol:
@@ -84,7 +88,7 @@ class Report:
                 continue
             seen.add(ident)
             k += 1
-            rp = os.path.join(VERIF, "evidence", "replay", "%s-%d.json" % (self.pid, k))
+            rp = os.path.join(EVDIR, "replay", "%s-%d.json" % (self.pid, k))
             json.dump({"property": self.pid, "rule": o["rule"], "rule_text": self.rules.get(o["rule"], ""),
                        "instance_key": o["key"], "what": o["detail"], "loc": o["loc"], "path": o.get("path")},
                       open(rp, "w"), indent=1)
@@ -117,7 +121,7 @@ class Report:
         ev = {"property_id": self.pid, "tier": self.tier, "seed": int(self.seed), "level": self.level,
               "coverage": cov, "assumptions": self.assumptions, "wall_s": round(time.time() - self.t0, 2),
               "violations": len(seen)}
-        json.dump(ev, open(os.path.join(VERIF, "evidence", self.pid + ".json"), "w"), indent=1)
+        json.dump(ev, open(os.path.join(EVDIR, self.pid + ".json"), "w"), indent=1)
         print("%s: %d obligations, %d hold, %d known findings, %d violations, %d analysis-broken (%.1fs)" % (
             self.pid, n_ob, len(held), len(known), len(seen), len(self.broken_msgs), time.time() - self.t0))
         if viol:
